@@ -529,7 +529,9 @@ pub fn decode_spec(t: &mut Tape, p: &Profile) -> GraphSpec {
         }
         batches.push((pairs, kind(t)));
     }
-    let mut spec = GraphSpec { fns, edges, batches };
+    // one case in six inserts the functions through the batch form `add_fns`
+    let add_mode = if t.chance(1, 6) { 1 + t.below(2) as u8 } else { 0 };
+    let mut spec = GraphSpec { fns, edges, batches, add_mode };
     if let Some(cap) = p.root_path_cap {
         // Construction-time exclusion: drop trailing edges until the cap holds.
         loop {
